@@ -753,7 +753,7 @@ def raise_inconclusive(msg):
     raise Inconclusive(msg)
 
 
-REQUIRE = [("base_tokens", 20, "base tokens"), ("reached_verify_primitive", 5000, "faults that reached a signature primitive"),
+REQUIRE = [("base_tokens", 20, "base tokens"), ("reached_verify_primitive", 2000, "faults that reached a signature primitive"),
            ("trace_checked_accepts", 20, "trace specification evaluated on accepts"), ("verify_events", 20, "verify events observed")]
 
 
